@@ -336,6 +336,19 @@ def run_products(ctx):
     t('dro (static-adaptive)@rand', lambda: (lambda m, x, z, y: (x - y) @ z)(*mk_dro()))
     t('dro (2*static+adaptive)*rand', lambda: (lambda m, x, z, y: (2 * x + y) * z)(*mk_dro()))
     t('dro (adaptive+static)*rand', lambda: (lambda m, x, z, y: (y + x) * z)(*mk_dro()))
+    def mk_dro_partial():
+        m = dro.Model(2); x = m.dvar(2); z = m.rvar(2); y = m.dvar(2); y[0].adapt(z); return m, x, z, y
+    t('dro partially-adaptive*rand', lambda: (lambda m, x, z, y: y * z)(*mk_dro_partial()))
+    t('dro rand@partially-adaptive', lambda: (lambda m, x, z, y: z @ y)(*mk_dro_partial()))
+    t('dro (partially-adaptive+1)*rand', lambda: (lambda m, x, z, y: (y + 1) * z)(*mk_dro_partial()))
+    t('dro adaptive-entry*rand', lambda: (lambda m, x, z, y: y[0] * z[0])(*mk_dro_partial()))
+    t('dro adaptive.sum()*rand', lambda: (lambda m, x, z, y: y.sum() * z[0])(*mk_dro()))
+    t('dro rand*adaptive.sum()', lambda: (lambda m, x, z, y: z * y.sum())(*mk_dro()))
+    t('dro (static+2*adaptive.sum()-1)*rand', lambda: (lambda m, x, z, y: (x[0] + 2 * y.sum() - 1) * z)(*mk_dro()))
+    t('dro rand@(I*adaptive).sum(axis=0)', lambda: (lambda m, x, z, y: z @ (np.eye(2) * y).sum(axis=0))(*mk_dro()))
+    t('dro adaptive.reshape*rand', lambda: (lambda m, x, z, y: y.reshape((2, 1)) * z[0])(*mk_dro()))
+    t('dro adaptive.T*rand', lambda: (lambda m, x, z, y: y.T * z)(*mk_dro()))
+    t('dro adaptive[::-1]*rand', lambda: (lambda m, x, z, y: y[::-1] * z)(*mk_dro()))
     t('dro norm(adaptive)', lambda: (lambda m, x, z, y: rso.norm(y))(*mk_dro()))
     t('dro sumsqr(static+adaptive)', lambda: (lambda m, x, z, y: rso.sumsqr(x + y))(*mk_dro()))
     t('dro square(2*static+adaptive)', lambda: (lambda m, x, z, y: rso.square(2 * x + y))(*mk_dro()))
@@ -349,6 +362,16 @@ def run_products(ctx):
             ctx.hit('illegal-product-accepted', {"what": name}, {"illegal": name})
         except Exception as ex:
             ctx.count('illegal:raised:' + type(ex).__name__)
+    # legal controls: these must NOT raise
+    for name, f in [('dro static-entry-of-partially-adaptive*rand', lambda: (lambda m, x, z, y: y[1] * z[0])(*mk_dro_partial())),
+                    ('dro static*rand', lambda: (lambda m, x, z, y: x * z)(*mk_dro()))]:
+        ctx.programs += 1; ctx.evaluations += 1
+        try:
+            with C.quiet():
+                f()
+            ctx.count('legal-product:accepted')
+        except Exception as ex:
+            ctx.hit('legal-product-rejected', {"what": name, "error": type(ex).__name__}, {"legal": name})
 
 
 # ----------------------------------------------------------------------------- search
